@@ -156,6 +156,11 @@ Init == \E c \in Coins : \E sh \in {x \in Shapes : ShapeOK(c, x)} : InitWith(c, 
 (*        including the scripts added to it).                                 *)
 (*  I: the inputs the signer is asked to sign; ht: requested hash type;       *)
 (*  scr: whether the redeem / witness scripts were supplied along.            *)
+(*  ic: how I is handed over: "none" = the argument is omitted, which means   *)
+(*      every input (so I = Ins); "set" / "list" / "tuple" = an explicit      *)
+(*      collection of indices - an explicitly EMPTY collection asks for       *)
+(*      nothing and nothing may change.                                       *)
+Containers == {"none", "set", "list", "tuple"}
 Mechs == {"lookup", "wifs", "keychain"}
 
 KcRegAfter(p) == IF p.mech # "keychain" THEN kcReg ELSE IF p.fresh THEN p.reg ELSE kcReg \cup p.reg
@@ -169,6 +174,7 @@ Supplied(p) == IF p.mech = "keychain"
 
 PassOK(p) == /\ p.mech \in Mechs /\ p.K \subseteq Keys /\ p.I \subseteq Ins /\ p.ht \in HashTypes
              /\ p.scr \in BOOLEAN /\ p.reg \subseteq Keys /\ p.sec \subseteq Masters /\ p.fresh \in BOOLEAN
+             /\ p.ic \in Containers /\ (p.ic = "none" => p.I = Ins)
 
 ----------------------------------------------------------------------------
 (* The action *)
@@ -211,14 +217,28 @@ SignPassWith(p, ch) ==
     /\ UNCHANGED <<coin, shape, frame>>
 SignPass(p) == \E ch \in PassChoices(p, NIn) : SignPassWith(p, ch)
 
+(* The long-lived keychain is an object with a history of its own: between    *)
+(* passes the caller may register more key paths (R), add the private node of *)
+(* more masters (M), add the scripts (S).  Nothing in the transaction moves.  *)
+(* What a later pass (mech = "keychain", fresh = FALSE) can sign is a         *)
+(* function of what the keychain holds THEN - in particular a key that an     *)
+(* earlier pass looked for in vain is found once its master has been added.   *)
+KcAdd(R, M, S) ==
+    /\ npass < MaxPasses /\ R \subseteq Keys /\ M \subseteq Masters /\ S \in BOOLEAN
+    /\ kcReg' = kcReg \cup R /\ kcSec' = kcSec \cup M /\ kcScr' = (kcScr \/ S)
+    /\ npass' = npass + 1
+    /\ UNCHANGED <<coin, shape, signed, valid, frame, unlock, offered>>
+
 \* the passes explored by the model-checking configurations (the replay modules choose their own)
 AllPasses == [mech : Mechs, K : SUBSET Keys, I : SUBSET Ins, ht : HashTypes, scr : BOOLEAN,
-              reg : SUBSET Keys, sec : SUBSET Masters, fresh : BOOLEAN]
+              reg : SUBSET Keys, sec : SUBSET Masters, fresh : BOOLEAN, ic : {"none", "set"}]
 \* lookup/wifs passes do not use reg/sec; keychain passes do not use K: keep one representative
 Canonical(p) == IF p.mech = "keychain" THEN p.K = {} ELSE p.reg = {} /\ p.sec = {} /\ p.fresh
 \* (configurations override Passes to trade pass variety against depth)
 Passes == {p \in AllPasses : Canonical(p)}
-Next == \E p \in Passes : SignPass(p)
+KcAdds == {a \in [R : {{}, Keys}, M : SUBSET Masters, S : BOOLEAN] : a.R # {} \/ a.M # {} \/ a.S}
+Next == \/ \E p \in Passes : SignPass(p)
+        \/ \E a \in KcAdds : KcAdd(a.R, a.M, a.S)
 Spec == Init /\ [][Next]_vars
 
 ----------------------------------------------------------------------------
